@@ -1,7 +1,8 @@
 (* C09 — linear estimation (definitions only), generic in the ordered field.
 
    Mirrors quara/protocol/qtomography/standard/linear_estimator.py (calc_estimate_sequence, calc_estimate),
-   standard_qtomography.py (is_fullrank_matA) and standard_qtomography_estimator.py (estimated_var).
+   standard_qtomography.py (is_fullrank_matA) and standard_qtomography_estimator.py (estimated_var) — the code AFTER
+   the repairs fixes/fullrank-guard-column-rank.diff and fixes/linear-estimator-unequal-outcome-counts.diff (see below).
 
      A      : m x n matrix (rows = (schedule, outcome) pairs, columns = variables)      calc_matA()
      b      : m vector                                                                   calc_vecB()
@@ -124,9 +125,21 @@ Definition solve_g (n : nat) (G : mat) : solved :=
 Definition solve (m n : nat) (A : mat) : solved := solve_g n (mfrz n n (gram m A)).
 
 (* ------------------------------------------------------------------ the estimator as coded *)
+(* The FAITHFUL model is the code AFTER the two repairs
+     fixes/fullrank-guard-column-rank.diff               is_fullrank_matA: rank == matA.shape[1]   (was: min(matA.shape))
+     fixes/linear-estimator-unequal-outcome-counts.diff  f = np.hstack(blocks)                      (was: np.vstack(blocks).flatten())
+   The two definitions "as coded before fix ..." are kept, clearly labelled, only to state what was wrong (Props 15, 16).
+   The loop and the estimator are written once, parametrised by the stacking function and the guard. *)
 (* one dataset = one (sample count, empirical distribution) pair per schedule *)
 Definition dataset := list (Z * list F).
-(* np.vstack(blocks).flatten(): defined only when there is at least one block and all blocks have equal length *)
+(* np.hstack(blocks) on 1-d blocks: concatenation; defined only when there is at least one block (else ValueError) *)
+Definition hstack (blocks : list (list F)) : option (list F) :=
+  match blocks with
+  | [] => None
+  | _ :: _ => Some (concat blocks)
+  end.
+(* AS CODED BEFORE FIX linear-estimator-unequal-outcome-counts:
+   np.vstack(blocks).flatten(): defined only when there is at least one block and all blocks have equal length *)
 Definition vstack_flatten (blocks : list (list F)) : option (list F) :=
   match blocks with
   | [] => None
@@ -135,33 +148,46 @@ Definition vstack_flatten (blocks : list (list F)) : option (list F) :=
 Inductive eres :=
   | E_ok (xs : list (list F))   (* estimated_var_sequence *)
   | E_guard                     (* `if not qtomography.is_fullrank_matA(): raise Exception` *)
-  | E_singular                  (* np.linalg.inv on an exactly singular A^T A: LinAlgError or a meaningless matrix *)
-  | E_stack                     (* np.vstack: ValueError *)
-  | E_shape                     (* f - b: operands of different length *)
+  | E_singular                  (* np.linalg.inv on an exactly singular A^T A behind a passing guard: LinAlgError or a
+                                   meaningless matrix.  Unreachable with the repaired guard (Props 17: C09_never_singular) *)
+  | E_stack                     (* np.hstack / np.vstack: ValueError *)
+  | E_shape                     (* f - b: operands of different length (numpy would broadcast a one-entry f against a longer
+                                   b; that malformed input is not modelled and never generated) *)
   | E_internal.                 (* the untrusted producer failed its check (never observed) *)
-(* is_fullrank_matA AS CODED: rank == min(matA.shape) *)
-Definition coded_guard (m n : nat) (A : mat) : bool := Nat.eqb (rank_of m n A) (Nat.min m n).
+(* is_fullrank_matA: rank == number of columns (= number of variables) *)
+Definition coded_guard (m n : nat) (A : mat) : bool := Nat.eqb (rank_of m n A) n.
+(* AS CODED BEFORE FIX fullrank-guard-column-rank: rank == min(matA.shape) *)
+Definition coded_guard_before_fix (m n : nat) (A : mat) : bool := Nat.eqb (rank_of m n A) (Nat.min m n).
 (* the loop `for empi_dists in empi_dists_sequence: ... estimate_sequence.append(v)` *)
-Fixpoint est_loop (one : list F -> list F) (m : nat) (sq : list dataset) (acc : list (list F)) : eres :=
+Fixpoint est_loop_with (stack : list (list F) -> option (list F)) (one : list F -> list F) (m : nat)
+                       (sq : list dataset) (acc : list (list F)) : eres :=
   match sq with
   | [] => E_ok acc
   | ds :: rest =>
-      match vstack_flatten (map snd ds) with
+      match stack (map snd ds) with
       | None => E_stack
-      | Some f => if Nat.eqb (length f) m then est_loop one m rest (acc ++ [one f]) else E_shape
+      | Some f => if Nat.eqb (length f) m then est_loop_with stack one m rest (acc ++ [one f]) else E_shape
       end
   end.
 Definition one_estimate (m n : nat) (M A : mat) (b f : list F) : list F :=
   lvec n (estimate_x m n M A (vofl b) (vofl f)).
-Definition calc_estimate_sequence (m n : nat) (A : mat) (b : list F) (sq : list dataset) : eres :=
-  if negb (coded_guard m n A) then E_guard
+Definition calc_estimate_sequence_with (guard : nat -> nat -> mat -> bool) (stack : list (list F) -> option (list F))
+                                       (m n : nat) (A : mat) (b : list F) (sq : list dataset) : eres :=
+  if negb (guard m n A) then E_guard
   else match solve m n A with
-       | S_inv M => est_loop (one_estimate m n M A b) m sq []
+       | S_inv M => est_loop_with stack (one_estimate m n M A b) m sq []
        | S_ker _ => E_singular
        | S_fail => E_internal
        end.
+(* LinearEstimator.calc_estimate_sequence / calc_estimate (repaired code) *)
+Definition est_loop := est_loop_with hstack.
+Definition calc_estimate_sequence := calc_estimate_sequence_with coded_guard hstack.
 Definition calc_estimate (m n : nat) (A : mat) (b : list F) (ds : dataset) : eres :=
   calc_estimate_sequence m n A b [ds].
+(* AS CODED BEFORE the two fixes (used only by the two `_refuted` statements) *)
+Definition calc_estimate_sequence_before_fix := calc_estimate_sequence_with coded_guard_before_fix vstack_flatten.
+Definition calc_estimate_before_fix (m n : nat) (A : mat) (b : list F) (ds : dataset) : eres :=
+  calc_estimate_sequence_before_fix m n A b [ds].
 (* StandardQTomographyEstimationResult.estimated_var / estimated_var_sequence *)
 Definition estimated_var (xs : list (list F)) : list F := nth 0 xs [].
 Definition estimated_var_sequence (xs : list (list F)) : list (list F) := xs.
@@ -181,9 +207,12 @@ Arguments mofr {F} r _ _. Arguments mfrz {F} m n A _ _. Arguments estimate_x {F}
 Arguments veqb {F} n x y. Arguments cert_okb {F} n M G. Arguments ker_okb {F} n G w.
 Arguments gj {F} n rows. Arguments rank_of {F} m n A. Arguments solve {F} m n A. Arguments solve_g {F} n G.
 Arguments S_inv {F} M. Arguments S_ker {F} w. Arguments S_fail {F}.
-Arguments vstack_flatten {F} blocks. Arguments coded_guard {F} m n A.
+Arguments vstack_flatten {F} blocks. Arguments hstack {F} blocks. Arguments coded_guard {F} m n A.
+Arguments coded_guard_before_fix {F} m n A.
 Arguments E_ok {F} xs. Arguments E_guard {F}. Arguments E_singular {F}. Arguments E_stack {F}.
 Arguments E_shape {F}. Arguments E_internal {F}.
-Arguments est_loop {F} one m sq acc. Arguments one_estimate {F} m n M A b f.
+Arguments est_loop_with {F} stack one m sq acc. Arguments est_loop {F} one m sq acc. Arguments one_estimate {F} m n M A b f.
+Arguments calc_estimate_sequence_with {F} guard stack m n A b sq.
 Arguments calc_estimate_sequence {F} m n A b sq. Arguments calc_estimate {F} m n A b ds.
+Arguments calc_estimate_sequence_before_fix {F} m n A b sq. Arguments calc_estimate_before_fix {F} m n A b ds.
 Arguments estimated_var {F} xs. Arguments estimated_var_sequence {F} xs. Arguments norm_inf {F} n G.
